@@ -1,7 +1,8 @@
 """Generated class definitions (as source text, compiled and executed) for C07 / C20.
 
 A spec is (storage, levels, ser, ign):
-  storage in {'dict', 'slots', 'slots-on-dict', 'dict-on-slots'}
+  storage in {'dict', 'slots', 'slots-on-dict', 'dict-on-slots'}, optionally followed by '@' and a prefix for
+          the class names ('slots@_' names its classes _L0, _L1, ...: name mangling strips leading underscores)
   levels  tuple of field-kind tuples, one per class of the inheritance chain (base first),
           kinds 'a' (public), 'b' (protected, '_b'), 'c' (name-mangled, '__c')
   ser     in {'none', 'list', 'dict', 'custom-list'}   serialisation method variant
@@ -31,7 +32,7 @@ def specs(maxdepth, storages=("dict", "slots", "slots-on-dict", "dict-on-slots")
             if not any(levels):
                 continue
             for storage in storages:
-                if depth == 0 and storage in ("slots-on-dict", "dict-on-slots"):
+                if depth == 0 and storage.partition("@")[0] in ("slots-on-dict", "dict-on-slots"):
                     continue
                 for ser in sers:
                     for ign in igns:
@@ -40,12 +41,13 @@ def specs(maxdepth, storages=("dict", "slots", "slots-on-dict", "dict-on-slots")
 
 def source(spec, modname):
     storage, levels, ser, ign = spec
+    storage, _, prefix = storage.partition("@")
     lines = ["import enum, decimal", ""]
     n = len(levels)
     fields = []  # (attribute name as written, real (mangled) name)
     for i, kinds in enumerate(levels):
-        cname = "L%d" % i
-        base = "L%d" % (i - 1) if i else "object"
+        cname = prefix + "L%d" % i
+        base = prefix + "L%d" % (i - 1) if i else "object"
         slotted = {"dict": False, "slots": True, "slots-on-dict": i == n - 1, "dict-on-slots": i < n - 1 and n > 1}[storage]
         if storage == "dict-on-slots" and n == 1:
             slotted = False
@@ -55,7 +57,7 @@ def source(spec, modname):
             lines.append("    __slots__ = (%s)" % "".join("%r, " % nm for nm in names))
         lines.append("    def __init__(self, *args, **kwargs):")
         if i:
-            lines.append("        %s.__init__(self)" % base)
+            lines.append("        super().__init__()")
         for nm in names:
             lines.append("        self.%s = 'init-%s'" % (nm, nm))
         if ser != "none" and i == n - 1 and not slotted:
@@ -64,7 +66,7 @@ def source(spec, modname):
             lines.append("        self.extra = None")
         lines.append("        pass")
         for nm in names:
-            real = "_%s%s" % (cname, nm) if nm.startswith("__") else nm
+            real = "_%s%s" % (cname.lstrip("_"), nm) if nm.startswith("__") else nm
             fields.append((nm, real))
         if i == n - 1:
             if ser in ("list", "dict", "custom-list") and not slotted:
@@ -92,7 +94,7 @@ def build(spec, main_module=False):
     mod.__dict__["__name__"] = modname
     if not main_module:
         sys.modules[modname] = mod
-    cls = mod.__dict__["L%d" % (len(spec[1]) - 1)]
+    cls = mod.__dict__[spec[0].partition("@")[2] + "L%d" % (len(spec[1]) - 1)]
     _CACHE[key] = (cls, fields, modname)
     return _CACHE[key]
 
